@@ -1245,6 +1245,11 @@ def container_call(eng, st, target, name, args, kwargs, node=None):
             upd(st, SSeq.of(c.te, []))
             yield st, None
             return
+        if name == "reverse" and not args:
+            jz = z3.Int(fresh_name("rj"))
+            upd(st, SSeq(c.te, z3.Lambda([jz], z3.Select(c.arr, c.n - 1 - jz)), c.n))
+            yield st, None
+            return
         raise Unsupported(f"list method {name} on symbolic list")
     if isinstance(c, CDict):
         if name == "get":
